@@ -15,7 +15,7 @@ CLAIMED['C12'] = dict(engine='E4', technique='Coq proof over R (closed-form Bezi
     note='Reals for floats; math.* denote Coq Reals functions (base/Num.v RMath); Coq-Interval used for two numeric bounds; translator + extraction + driver trusted glue; float rounding of the implementation observed (<=2e-6 relative in the sqrt-amplified regime), not bounded.',
     design='§12.2, §7 C12')
 CLAIMED['C09'] = dict(engine='E3', technique='Coq proof: generic simulation theorem between the walk state machine (callbacks regenerated from svg_types.py) and an SVG path interpreter written from the standard, instantiated per rewrite by 20-letter case analysis; exhaustive small-scope + random differential run; spec judge',
-    text='Partial proof. For command lists of any length: the walk bookkeeping equals the standard current-point rules; explicit_lines, expand_shorthand, absolute, absolute_moveto, relative and move preserve (or shift) the interpreted segment list exactly; target forms; rounding bound. The absolute/relative theorems assume no 1e-9 near miss of the subpath start (the code snaps those). subpaths(), arcs in as_cmd_seq, basic-shape outlines are covered by the exhaustive correspondence (all sequences of <=2/3 commands over 20 letters) and the spec judge run on every check.',
+    text='Partial proof. For command lists of any length: the walk bookkeeping equals the standard current-point rules; explicit_lines, expand_shorthand, absolute, absolute_moveto, relative and move preserve (or shift) the interpreted segment list exactly; target forms; rounding bound. The rewrites compose (as_cmd_seq on arc-free paths). The absolute/relative theorems assume no 1e-9 near miss of the subpath start; when the snap fires, the moved segment (absolute or relative, all 18 drawing letters) is proved to end exactly on the subpath start with its other arguments unchanged, and the resulting drift is judged on near-closing inputs. subpaths(), arcs in as_cmd_seq, basic-shape outlines are covered by the exhaustive correspondence (all sequences of <=2/3 commands over 20 letters) and the spec judge run on every check.',
     note='Reals for floats; model/Walk.v (walk loop) hand-written and correspondence-checked; spec/PathSem.v is the meaning of path data; one known finding (arcs_to_cubics API followed by shorthand).',
     design='§12.2, §7 C09')
 CLAIMED['C10'] = dict(engine='E2', technique='Coq model of the regex tokenizer pinned (by provable string equalities) to the regexes regenerated from source, SVG 1.1 grammar as an executable Coq spec; exhaustive-string differential run (all strings <=5/6 chars over a 14-symbol alphabet + token sequences) and grammar judge',
@@ -43,7 +43,7 @@ CLAIMED['C20'] = dict(engine='E6', technique='Coq proof, for arbitrary candidate
     note='Reuse.v is a hand model (arc-free paths) validated against the implementation incl. candidate matrices; atan2/sqrt from CPython in the differential run.',
     design='§12.2, §7 C20')
 CLAIMED['C05'] = dict(engine='E5', technique='Coq: compositing algebra for group flattening and the inheritance loop over the regenerated handler table; hand model of the inheritance helpers checked against the implementation helpers; end-to-end spec-side renderer judge on every run',
-    text='Partial. Proved: source-over algebra (associativity; opaque / transparent / single-child groups flatten with the opacity multiplied in; a translucent group with overlapping children must be kept — counterexample), and for the model of _inherit_attrib that each handler touches only its attribute and copied properties resolve to the own value else the context (nearest ancestor). Not a theorem: that the whole pipeline realises this for every document — decided on every run by rendering source and converted documents with an independent spec-side renderer at sample points. Two recorded findings (root opacity, unclamped out-of-range shape opacity).',
+    text='Partial. Proved: source-over algebra (associativity; opaque / transparent / single-child groups flatten with the opacity multiplied in; a translucent group with overlapping children must be kept — counterexample), and for the model of _inherit_attrib that each handler touches only its attribute and copied properties resolve to the own value else the context (nearest ancestor); writing a cached shape back and reading it in the same context is the identity while in another context an omitted own value is replaced, and the regenerated skeleton of topicosvg performs no write-back before use is instantiated (fix c7cbe43). Not a theorem: that the whole pipeline realises this for every document — decided on every run by rendering source and converted documents with an independent spec-side renderer at sample points. Two recorded findings (root opacity, unclamped out-of-range shape opacity).',
     note='Inherit.v hand model validated on 1500/30000 random attribute maps against the real helpers; dyadic opacities; renderer is trusted spec-side code.',
     design='§12.2, §7 C05')
 CLAIMED['C02'] = dict(engine='E5', technique='Coq proof over R of transform accumulation along ancestor chains of any depth, use and nested-svg transforms (arithmetic regenerated from source); exact differential run of depth_first contexts / resolve_use / resolve_nested_svgs; end-to-end spec-side renderer judge',
